@@ -11,7 +11,7 @@ func init() {
 		ID:    "C19",
 		Title: "Distinct instances are independent across goroutines",
 		Rule: "Race-detector build, no harness hook and no shared harness state while the workload runs: for every unordered pair of the ten operation families (build, mutate, search, sort with the default ranker incl. the default sorter of a composite type, compare/rank, format incl. String() through the class notation, parse, class functions (set algebra, Merge, Extract, Concatenate), a private Split/Join queue pipeline, iterate) 2..16 goroutines each run a deterministic script on instances they create themselves, three times; " +
-			"the sequential transcript of every script is computed first and every concurrent transcript must equal it; every pair is additionally run cold in a fresh child process (first use of all lazily initialised shared state happens concurrently, references computed afterwards); race reports with a repository frame are violations. Class accessors: 320 accessors (8 classes x 40 type parameters unused elsewhere) are called from 16 goroutines at once; all callers must receive the same class. " +
+			"the sequential transcript of every script is computed first and every concurrent transcript must equal it; every pair is additionally run cold in a fresh child process (first use of all lazily initialised shared state happens concurrently, references computed afterwards); race reports with a repository frame are violations. Class accessors: 320 accessors (8 classes x 40 type parameters unused elsewhere) are called from 16 goroutines at once, half of them holding a notation instance of their own, and once more afterwards with a fresh notation instance; all callers must receive the same class. " +
 			"distinct_nontrivial = distinct (family pair, goroutine count, repetition).",
 		Assumptions: []string{
 			"races are only reported for accesses the runs actually made concurrent; each pair is repeated with varying goroutine counts and GOMAXPROCS",
